@@ -90,6 +90,19 @@ func verifyLemmas(P *Program, L *Library, labels []string, opt solveOpts) []*Fun
 // globalInit asserts the initial value of a package-level variable whose initializer is a
 // composite literal of constants (e.g. xml.Name{Namespace, "resourcetype"}).
 func (x *Exec) globalInit(heapName, sym string) {
+	// sentinel errors of the standard library: leaves that match only themselves and mention no host path
+	sentinels := map[string]string{"G_os_ErrExist": "isExist", "G_io_fs_ErrExist": "isExist", "G_os_ErrNotExist": "isNotExist", "G_io_fs_ErrNotExist": "isNotExist",
+		"G_os_ErrPermission": "isPerm", "G_io_fs_ErrPermission": "isPerm", "G_os_ErrDeadlineExceeded": "isDeadline", "G_path_filepath_SkipDir": "", "G_io_fs_SkipDir": "", "G_io_EOF": ""}
+	if own, ok := sentinels[heapName]; ok {
+		facts := []string{fmt.Sprintf("(not (= %s nilI))", sym), fmt.Sprintf("(not (hostPath %s))", sym), obsNone(sym, own)}
+		if own != "" {
+			facts = append(facts, fmt.Sprintf("(%s %s)", own, sym))
+		}
+		facts = append(facts, fmt.Sprintf("(= (osIsExist %s) %v)", sym, own == "isExist"), fmt.Sprintf("(= (osIsNotExist %s) %v)", sym, own == "isNotExist"))
+		x.C.decl("(assert (and " + strings.Join(facts, " ") + "))")
+		x.C.used["T-errors: sentinel "+strings.TrimPrefix(heapName, "G_")] = true
+		return
+	}
 	var found *packages.Package
 	var spec *ast.ValueSpec
 	var idx int
